@@ -6,6 +6,7 @@
    are |old fitness − new fitness| of those slots; memory cell `k` is read, its cyclic successor is written (both
    memories, same cell), every other cell is untouched, and the index advances to that successor. -/
 import TFV.Generated.Src.SHADE_bookkeeping
+import TFV.Generated.Src.SHAGA_bookkeeping
 import TFV.Properties.Src.Greedy
 
 namespace TFV.SrcTie
@@ -72,6 +73,56 @@ theorem C15_src_shade_bookkeeping (H : Nat) (k : Nat) (hk : k < H)
     have hmod : (k + 1) % H = k + 1 := Nat.mod_eq_of_lt hlt
     have hkl : ¬ ((k : Int) = (H : Int) - 1) := by omega
     have i11 : Imp.inb HF ((k : Int) + 1) = true := by simp [Imp.inb, h9]; omega
+    have i12 : Imp.inb HCR ((k : Int) + 1) = true := by simp [Imp.inb, h10]; omega
+    have tn : ((k : Int) + 1).toNat = k + 1 := by omega
+    simp only [Imp.leni, lm, ls, h1, h2, h3, h4, h5, h6, h7, h8, e1, e2, e3, hsucc, hlast, ik1, ik2, gk1, gk2, i11, i12, hmod, lget,
+      improvements, decide_false, Bool.false_eq_true, if_false, Imp.seti, tn]
+    simp [hkl, lf']
+
+/-- SHAGA's bookkeeping: the same ring for `H_MR` / `H_CR`, both written by `_update_u` with the SAME improvements -/
+theorem C15_src_shaga_bookkeeping (H : Nat) (k : Nat) (hk : k < H)
+    (g ph fit MR CR HMR HCR tg tph tfit : List Int) (n : Nat)
+    (h1 : g.length = n) (h2 : ph.length = n) (h3 : fit.length = n) (h4 : tg.length = n) (h5 : tph.length = n) (h6 : tfit.length = n)
+    (h7 : MR.length = n) (h8 : CR.length = n) (h9 : HMR.length = H) (h10 : HCR.length = H)
+    (updateFn : Int → List Int → List Int → Nat → Int) :
+    SHAGA_bookkeeping (H : Int) tg tph tfit g ph fit MR CR HMR HCR (k : Int) updateFn =
+      some [(EA.merge (inds g ph fit) (inds tg tph tfit)).map (·.g),
+            (EA.merge (inds g ph fit) (inds tg tph tfit)).map (·.ph),
+            (EA.merge (inds g ph fit) (inds tg tph tfit)).map (·.fit), MR, CR,
+            HMR.set ((k + 1) % H) (updateFn (HMR.getD k 0) (Imp.maskGet MR (Imp.maskGT tfit fit))
+              (improvements fit ((EA.merge (inds g ph fit) (inds tg tph tfit)).map (·.fit)) (Imp.maskGT tfit fit)) 0),
+            HCR.set ((k + 1) % H) (updateFn (HCR.getD k 0) (Imp.maskGet CR (Imp.maskGT tfit fit))
+              (improvements fit ((EA.merge (inds g ph fit) (inds tg tph tfit)).map (·.fit)) (Imp.maskGT tfit fit)) 1),
+            [(((k + 1) % H : Nat) : Int)]] := by
+  obtain ⟨e1, e2, e3⟩ := maskSet_merge g ph fit tg tph tfit n h1 h2 h3 h4 h5 h6
+  generalize hf' : (EA.merge (inds g ph fit) (inds tg tph tfit)).map (·.fit) = fit' at *
+  generalize hg' : (EA.merge (inds g ph fit) (inds tg tph tfit)).map (·.g) = g' at *
+  generalize hp' : (EA.merge (inds g ph fit) (inds tg tph tfit)).map (·.ph) = ph' at *
+  have lm : (Imp.maskGE tfit fit).length = n := by simp [Imp.maskGE, h3, h6]
+  have ls : (Imp.maskGT tfit fit).length = n := by simp [Imp.maskGT, h3, h6]
+  generalize hsucc : Imp.maskGT tfit fit = succ at *
+  have lf' : fit'.length = n := by rw [← e3, maskSet_length, h3]
+  have lget : (Imp.maskGet fit succ).length = (Imp.maskGet fit' succ).length :=
+    maskGet_length_eq fit fit' succ (by rw [h3, ls]) (by rw [lf', ls])
+  have ik1 : Imp.inb HMR (k : Int) = true := by simp [Imp.inb, h9]; omega
+  have ik2 : Imp.inb HCR (k : Int) = true := by simp [Imp.inb, h10]; omega
+  have gk1 : Imp.geti HMR (k : Int) = HMR.getD k 0 := by simp [Imp.geti]
+  have gk2 : Imp.geti HCR (k : Int) = HCR.getD k 0 := by simp [Imp.geti]
+  unfold SHAGA_bookkeeping
+  by_cases hlast : (k : Int) + 1 = (H : Int)
+  · have hmod : (k + 1) % H = 0 := by
+      have : k + 1 = H := by omega
+      rw [this]; simp
+    have hkl : (k : Int) = (H : Int) - 1 := by omega
+    have i01 : Imp.inb HMR (0 : Int) = true := by simp [Imp.inb, h9]; omega
+    have i02 : Imp.inb HCR (0 : Int) = true := by simp [Imp.inb, h10]; omega
+    simp only [Imp.leni, lm, ls, h1, h2, h3, h4, h5, h6, h7, h8, e1, e2, e3, hsucc, hlast, ik1, ik2, gk1, gk2, i01, i02, hmod, lget,
+      improvements, decide_true, if_true, Imp.seti]
+    simp [hkl, lf']
+  · have hlt : k + 1 < H := by omega
+    have hmod : (k + 1) % H = k + 1 := Nat.mod_eq_of_lt hlt
+    have hkl : ¬ ((k : Int) = (H : Int) - 1) := by omega
+    have i11 : Imp.inb HMR ((k : Int) + 1) = true := by simp [Imp.inb, h9]; omega
     have i12 : Imp.inb HCR ((k : Int) + 1) = true := by simp [Imp.inb, h10]; omega
     have tn : ((k : Int) + 1).toNat = k + 1 := by omega
     simp only [Imp.leni, lm, ls, h1, h2, h3, h4, h5, h6, h7, h8, e1, e2, e3, hsucc, hlast, ik1, ik2, gk1, gk2, i11, i12, hmod, lget,
